@@ -308,7 +308,7 @@ def gen_model(rng, allow_arith=False, need_shared=0):
             k = rng.randrange(len(shared))
             used_shared.add(k)
             return ["S", k]
-        if r < 0.45:
+        if r < 0.42:
             return ["C", dy(rng, -8, 8)]
         free[0] += 1
         return gen_prior(rng)
@@ -331,7 +331,7 @@ def gen_model(rng, allow_arith=False, need_shared=0):
         return {"cls": cls, "args": args}
 
     ncomp = rng.choice([1, 1, 2, 2, 3])
-    collection = ncomp > 1 or rng.random() < 0.6 or bool(need_shared)
+    collection = ncomp > 1 or rng.random() < 0.5 or bool(need_shared)
     comps = []
     for i in range(ncomp):
         c = comp()
@@ -478,6 +478,39 @@ def gen_cases(ctx, classes):
 
 # ----- classes of a case (for known findings) ---------------------------------
 
+def comp_free(c):
+    """number of prior slots (free or shared or arithmetic) of a component spec, recursively"""
+    n = 0
+    for p in c["args"].values():
+        if p[0] in ("U", "G", "L", "S", "A"):
+            n += 1
+        elif p[0] == "T":
+            n += sum(1 for q in p[1] if q[0] in ("U", "G", "L", "S", "A"))
+        elif p[0] == "M":
+            n += comp_free(p[1])
+    return n
+
+
+def comps_all(c):
+    yield c
+    for p in c["args"].values():
+        if p[0] == "M":
+            yield from comps_all(p[1])
+
+
+def model_labels(spec):
+    out = set()
+    for c in spec["comps"]:
+        for cc in comps_all(c):
+            if comp_free(cc) == 0:
+                out.add("model:fixed-component")
+            if any(p[0] == "A" for p in cc["args"].values()):
+                out.add("model:arith-prior")
+    if not spec.get("collection", True) and spec["comps"][0]["cls"] in ("KT", "KN"):
+        out.add("model:single-model-with-nested")
+    return out
+
+
 def case_classes(c):
     if c["kind"] == "settings":
         return ["search-class:" + c["cls"]]
@@ -488,8 +521,7 @@ def case_classes(c):
     for f in c["fits"]:
         if f["search"]["cls"] != "Scripted":
             out.add("search-class:" + f["search"]["cls"])
-        if f.get("arith"):
-            out.add("model:arith-prior")
+        out |= model_labels(f["model"])
         if f["type"] == "grid":
             tags.append(f.get("tag"))
     if len(tags) != len(set(tags)):
@@ -509,13 +541,22 @@ def info_digest(info):
     return digest({str(k): v for k, v in info.items()}) if info else None
 
 
+def kv_str(kv):
+    return ";".join("%s=%s" % (k, v) for k, v in sorted(kv))
+
+
+def csv_kv(e, r):
+    km = (e.get("recomputed") or {}).get("keymap") or {}
+    return sorted([km.get(h, h), v] for h, v in r["raw"])
+
+
 def samples_of(e):
     """[(vec, llkey, inst)] of an inspected folder or None"""
     if not e.get("samples"):
         return None
     insts = (e.get("recomputed") or {}).get("insts")
     rows = e["samples"]["rows"]
-    return [(vec_str(r["v"]), fkey(r["ll"]), insts[i] if insts else "") for i, r in enumerate(rows)]
+    return [(kv_str(csv_kv(e, r)), fkey(r["ll"]), insts[i] if insts else "") for i, r in enumerate(rows)]
 
 
 def folder_of(e):
@@ -540,7 +581,7 @@ def row_of(f):
     """observed database fit -> abstract row"""
     smp = None
     if isinstance(f.get("samples"), list):
-        smp = [(vec_str(r["v"]), fkey(r["ll"]), "") for r in f["samples"]]
+        smp = [(kv_str(r["kv"]), fkey(r["ll"]), "") for r in f["samples"]]
     info = f.get("info")
     return {
         "id": f["id"], "name": f["name"], "tag": f["unique_tag"], "complete": f["is_complete"],
@@ -606,7 +647,8 @@ def spec_of(f, rec, entry):
     n = rec.get("prior_count", f["nfree"])
     sc = f["scripts"][0]
     insts = rec.get("insts") or [""] * len(sc["vectors"])
-    samples = [(vec_str([hexf(x) for x in v[:n]]), fkey(ll), insts[i]) for i, (v, ll) in enumerate(zip(sc["vectors"], sc["logl"]))]
+    keys = rec.get("vec_keys") or ["p%d" % k for k in range(n)]
+    samples = [(kv_str(list(zip(keys, [hexf(x) for x in v[:n]]))), fkey(ll), insts[i]) for i, (v, ll) in enumerate(zip(sc["vectors"], sc["logl"]))]
     na = f.get("n_analyses", 1)
     rc = (entry or {}).get("recomputed") or {}
     return {
@@ -743,8 +785,8 @@ def oracle_scenario(c, r):
             if f["json_digest"].get(nm) != dg:
                 return "fit %s: json %s missing or different in the database" % (wid, nm)
         if e.get("samples"):
-            want = [(q["v"], q["ll"], q["lp"], q["w"]) for q in e["samples"]["rows"]]
-            got = [(q["v"], q["ll"], q["lp"], q["w"]) for q in f["samples"]] if isinstance(f["samples"], list) else f["samples"]
+            want = [(csv_kv(e, q), q["ll"], q["lp"], q["w"]) for q in e["samples"]["rows"]]
+            got = [(q["kv"], q["ll"], q["lp"], q["w"]) for q in f["samples"]] if isinstance(f["samples"], list) else f["samples"]
             if got != want:
                 return "fit %s: samples differ from samples.csv (%s rows vs %s)" % (wid, len(got) if isinstance(got, list) else got, len(want))
             if want:
